@@ -13,11 +13,13 @@ def budget(tier, quick_n):
 
 def mix_params(rng):
     r = rng.random()
-    if r < 0.2:
-        return dict(dup=0.45, elide=0.8, loss=0.15)          # deep duplications below elided levels
-    if r < 0.35:
+    if r < 0.4:
+        return dict(dup=0.5, elide=0.95, loss=0.1, chainy=0.35)  # deep duplications below elided levels
+    if r < 0.55:
+        return dict(dup=0.6, elide=0.95, loss=0.1, chainy=0.6, multi=0.8)   # many copies, each elided to a different depth
+    if r < 0.65:
         return dict(dup=0.15, elide=0.6, loss=0.4)           # many losses, long chains
-    if r < 0.45:
+    if r < 0.75:
         return dict(dup=0.5, elide=0.2, loss=0.1)            # duplication-rich
     return {}
 
@@ -25,13 +27,15 @@ def std_dataset(rng, **kw):
     kw.setdefault('P', mix_params(rng))
     if 'maxleaves' not in kw:
         kw['maxleaves'] = rng.choice([3, 4, 5, 6, 8, 8, 10, 12])
+    if kw['P'].get('elide', 0) > 0.9 and 'top_positions' not in kw:
+        kw['top_positions'] = 'root'
     D = gen.make_dataset(rng, **kw)
     return D
 
 def respell(rng, D):
     """randomly re-spell paralog nests / member order on the raw elements (same meaning)"""
     r = rng.random()
-    if r < 0.35:
+    if r < 0.5:
         D.groups = gen.nest_paralogs(rng, D.groups)
         D.meta['nested'] = True
     if rng.random() < 0.3:
@@ -68,7 +72,7 @@ class Explorer(object):
         h = core.case_hash(D.T, D.naming, D.groups, D.species)
         if nt:
             self.res.nontrivial.add(h)
-        for k in ('dups', 'elided', 'multicopy', 'deepdup', 'soledup', 'anns'):
+        for k in ('dups', 'elided', 'multicopy', 'deepdup', 'soledup', 'anns', 'widedup'):
             if st[k]:
                 self.res.count('cases_with_' + k)
         if poly:
@@ -163,19 +167,19 @@ def explore_load(prop, tier, seed, oracle, tags, n_quick, emit=(), with_truth=Fa
     return ex.res
 
 def c01(tier, seed):
-    return explore_load('C01', tier, seed, orc.c01, ['load', 'genes', 'members'], 300)
+    return explore_load('C01', tier, seed, orc.c01, ['load', 'genes', 'members'], 900)
 
 def c02(tier, seed):
     def pyobs(h, o):
         pass
-    res = explore_load('C02', tier, seed, orc.c02, ['load', 'forest'], 300, with_truth=True)
+    res = explore_load('C02', tier, seed, orc.c02, ['load', 'forest'], 900, with_truth=True)
     return res
 
 def c03(tier, seed):
-    return explore_load('C03', tier, seed, orc.c03, ['load', 'forest', 'members'], 400, with_truth=True)
+    return explore_load('C03', tier, seed, orc.c03, ['load', 'forest', 'members'], 1200, with_truth=True)
 
 def c04(tier, seed):
-    return explore_load('C04', tier, seed, orc.c04, ['load', 'genomes', 'agname'], 300)
+    return explore_load('C04', tier, seed, orc.c04, ['load', 'genomes', 'agname'], 900)
 
 # ------------------------------------------------------------------------------ comparisons
 
@@ -254,10 +258,10 @@ def explore_maps(prop, tier, seed, n_quick, mode):
     ex.close()
     return ex.res
 
-def c05(tier, seed): return explore_maps('C05', tier, seed, 150, 'C05')
-def c06(tier, seed): return explore_maps('C06', tier, seed, 150, 'C06')
-def c07(tier, seed): return explore_maps('C07', tier, seed, 120, 'C07')
-def c08(tier, seed): return explore_maps('C08', tier, seed, 100, 'C08')
+def c05(tier, seed): return explore_maps('C05', tier, seed, 400, 'C05')
+def c06(tier, seed): return explore_maps('C06', tier, seed, 400, 'C06')
+def c07(tier, seed): return explore_maps('C07', tier, seed, 300, 'C07')
+def c08(tier, seed): return explore_maps('C08', tier, seed, 250, 'C08')
 
 # ---------------------------------------------------------------------------------- profiles
 
@@ -294,8 +298,8 @@ def explore_profiles(prop, tier, seed, n_quick):
     ex.close()
     return ex.res
 
-def c09(tier, seed): return explore_profiles('C09', tier, seed, 150)
-def c10(tier, seed): return explore_profiles('C10', tier, seed, 150)
+def c09(tier, seed): return explore_profiles('C09', tier, seed, 400)
+def c10(tier, seed): return explore_profiles('C10', tier, seed, 400)
 
 # ------------------------------------------------------------------------------------ C11
 
@@ -314,7 +318,7 @@ def selected_families(D, hog_ids, int_ids, ext_ids):
 
 def c11(tier, seed):
     ex = Explorer('C11', tier, seed)
-    n = budget(tier, 120)
+    n = budget(tier, 300)
     for k in range(n):
         D = respell(ex.rng, std_dataset(ex.rng, nfam=ex.rng.choice([2, 3, 4, 5, 6])))
         cid = 'C11-%d' % k
@@ -486,7 +490,7 @@ def c12(tier, seed):
 
 def c16(tier, seed):
     ex = Explorer('C16', tier, seed)
-    n = budget(tier, 200)
+    n = budget(tier, 500)
     for k in range(n):
         D = respell(ex.rng, std_dataset(ex.rng))
         cid = 'C16-%d' % k
@@ -522,7 +526,7 @@ def c16(tier, seed):
 
 def c19(tier, seed):
     ex = Explorer('C19', tier, seed)
-    n = budget(tier, 250)
+    n = budget(tier, 600)
     for k in range(n):
         D = respell(ex.rng, std_dataset(ex.rng, P=dict(ann=0.5, subid=0.5, label=0.4, loft=0.4)))
         cid = 'C19-%d' % k
